@@ -495,6 +495,28 @@ def run(fn, domain: Domain, init=0) -> dict:
     return Interp(domain).run(fn, init)
 
 
+def run_block(stmts, domain: Domain, init=0, test=None) -> dict:
+    """Run a statement list (e.g. one loop iteration: `test` assumed true first).
+    -> {kind: State}; 'break' and 'continue' are reported as kinds."""
+    it = Interp(domain)
+    st = {v: () for v in (init if isinstance(init, list) else [init])}
+    sink: dict = {}
+    it.sinks.append(sink)
+    try:
+        if test is not None:
+            st, _ = it.branch(test, st)
+        out = it.block(stmts, st)
+    finally:
+        it.sinks.pop()
+    res = {k: v for k, v in out.items() if v}
+    for tag, ts in sink.items():
+        if ts:
+            res['raise:' + tag] = join(res.get('raise:' + tag, {}), ts)
+    if not res:
+        raise AnalysisError('no exit state computed for block (vacuous analysis)')
+    return res
+
+
 def normal_exits(res: dict) -> State:
     """States at all non-exceptional exits (fall-through and returns)."""
     return join(*[s for k, s in res.items() if k == 'fall' or k.startswith('ret:')])
